@@ -20,6 +20,7 @@ import (
 	"fmt"
 	"io"
 	"net"
+	"net/http"
 	"net/http/httptest"
 	"os"
 	"sort"
@@ -296,6 +297,124 @@ func releaseHolderTrial(r *vh.Run, i int) {
 	r.Count("release_holder_trials", 1)
 	if !blocked {
 		r.Count("release_holder_trials_never_blocked", 1)
+	}
+}
+
+// completionBehindCollectionTrial: "a request waiting for a collection returns when its context is cancelled" - also the
+// request that completes an upload.  The completing PUT has read its last byte and goes on to store the blob while a
+// collection of that repository is inside its locked phase (the sync shim stops the collection right after it took
+// the repository lock, so "the collection holds the lock now" is a fact, not a timing guess).  The PUT's context is
+// cancelled.  Stable-stall rule: if every goroutine inside olareg is blocked - the collection at the gate, the PUT
+// behind it - the cancelled request is waiting for the collection.  Then the gate opens and everything must drain.
+func completionBehindCollectionTrial(r *vh.Run, i int) {
+	kind := []vh.StoreKind{vh.Dir, vh.Mem}[i%2]
+	form := []string{"put", "monolithic-post", "mount"}[(i/2)%3]
+	root := ""
+	if kind == vh.Dir {
+		root = r.TempDir("c12g")
+		defer vh.RemoveAll(root)
+	}
+	srv := vh.New(vh.Conf(kind, root, vh.Policy{Untagged: true, Grace: time.Hour}))
+	wit := map[string]any{"trial": i, "store": kind.String(), "form": form}
+	seed := []byte(fmt.Sprintf("g%d", i))
+	sd := vh.DigestOf("sha256", seed)
+	vh.Do(srv, vh.Req{Method: "POST", URL: "/v2/g/blobs/uploads/?digest=" + sd, Body: seed})
+	vh.Do(srv, vh.Req{Method: "POST", URL: "/v2/src/blobs/uploads/?digest=" + sd, Body: seed})
+	content := []byte(fmt.Sprintf("completed behind a collection %d", i))
+	cd := vh.DigestOf("sha256", content)
+	pr, pw := io.Pipe()
+	body := &pipeBody{r: pr, started: make(chan struct{})}
+	ctx, cancel := context.WithCancel(context.Background())
+	defer cancel()
+	var req *http.Request
+	switch form {
+	case "put":
+		rs := vh.Do(srv, vh.Req{Method: "POST", URL: "/v2/g/blobs/uploads/"})
+		loc := rs.H.Get("Location")
+		if rs.Status != 202 || loc == "" {
+			r.Inconclusive("completionBehindCollection: no session")
+			return
+		}
+		ps := vh.Do(srv, vh.Req{Method: "PATCH", URL: loc, Body: content})
+		if ps.Status != 202 || ps.H.Get("Location") == "" {
+			r.Inconclusive("completionBehindCollection: chunk refused")
+			return
+		}
+		req = httptest.NewRequest("PUT", ps.H.Get("Location")+"&digest="+cd, body)
+	case "monolithic-post":
+		req = httptest.NewRequest("POST", "/v2/g/blobs/uploads/?digest="+cd, body)
+	case "mount":
+		// a mount copies from the source repository and completes like an upload; nothing to hold open: the gate is
+		// set first and the request sent while the collection is parked
+		req = httptest.NewRequest("POST", "/v2/g/blobs/uploads/?mount="+sd+"x&from=src", http.NoBody)
+	}
+	req.ContentLength = -1
+	req = req.WithContext(ctx)
+	done := make(chan struct{})
+	start := func() {
+		go func() {
+			srv.ServeHTTP(httptest.NewRecorder(), req)
+			close(done)
+		}()
+	}
+	if form != "mount" {
+		start()
+		select {
+		case <-body.started:
+		case <-time.After(10 * time.Second):
+			r.Inconclusive("completionBehindCollection: the request never started reading its body")
+			_ = pw.Close()
+			return
+		}
+	}
+	fn := map[vh.StoreKind]string{vh.Dir: "(*dirRepo).gc", vh.Mem: "(*memRepo).gc"}[kind]
+	parked, release := vsync.SetGate(fn)
+	defer release()
+	gcDone := make(chan struct{})
+	go func() { _ = srv.VerifGC(context.Background(), "g"); close(gcDone) }()
+	select {
+	case <-parked:
+	case <-time.After(10 * time.Second):
+		r.Count("completion_behind_collection_gate_not_reached", 1)
+		release()
+		_ = pw.Close()
+		return
+	}
+	// the collection is inside its locked phase.  The request's context is cancelled, then its body ends.
+	cancel()
+	if form == "mount" {
+		r.Count("completion_behind_collection_skipped_forms", 1) // a mount takes the repository first: it waits in RepoGet, which honours the context (covered by cancelTrial)
+		release()
+		<-gcDone
+		_ = srv.Close()
+		return
+	}
+	if form == "monolithic-post" {
+		_, _ = pw.Write(content)
+	}
+	_ = pw.Close()
+	r.Count("completion_behind_collection_trials", 1)
+	res := vh.Watch(func() { <-done }, 2*time.Second, 30*time.Second)
+	if res.Stalled {
+		wit["blocked_goroutines"] = res.Desc
+		r.Violation("cancel-ignored:completion-behind-collection", fmt.Sprintf("%s store, %s: the request that completes an upload has its context cancelled while a collection of the repository holds the repository lock; it does not return - every goroutine inside olareg is blocked until the collection has finished", kind, form), wit)
+	} else if res.Done {
+		r.Count("cancelled_completions_returned", 1)
+	} else {
+		r.Inconclusive("completionBehindCollection: still running after 30 s without a stable stall")
+	}
+	release()
+	res = vh.Watch(func() {
+		<-gcDone
+		if !res.Done {
+			<-done
+		}
+		vh.Do(srv, vh.Req{Method: "GET", URL: "/v2/g/tags/list"})
+		_ = srv.Close()
+	}, 3*time.Second, 40*time.Second)
+	if res.Stalled {
+		wit["blocked_goroutines"] = res.Desc
+		r.Violation("close-hangs", "after the collection was let go, the requests and Close do not return", wit)
 	}
 }
 
@@ -742,6 +861,14 @@ func main() {
 		before := r.Violations()
 		for i := 0; i < nfc && r.Violations() == before; i++ {
 			failedCompletionTrial(r, i)
+		}
+		st = r.Violations() > before
+	}
+	if !st {
+		ng := r.N(8, 60)
+		before := r.Violations()
+		for i := 0; i < ng && r.Violations() == before; i++ { // one at a time: the gate and the stall rule are process-wide
+			completionBehindCollectionTrial(r, i)
 		}
 		st = r.Violations() > before
 	}
